@@ -96,7 +96,7 @@ structure RefBuf where
   finalSize : Option Nat := none
   /-- `cursors.max_recv_offset` -/
   maxRecv : Nat := 0
-  deriving Repr
+  deriving Repr, DecidableEq
 
 def init : RefBuf := {}
 
@@ -109,6 +109,18 @@ def trim (consumed off : Nat) (data : List Nat) : Nat × List Nat :=
     (off + n, data.drop n)
   else (off, data)
 
+/-! the `ensure!` conditions, by name (tools/extractors/reassembler.py re-reads them from the
+    source on every run; `QuicProofs.Bridge.Reassembler` proves the extracted text equal to these) -/
+
+/-- `(Some(actual), Some(expected))`: `ensure!(actual == expected, Err(Error::InvalidFin))` -/
+@[reducible] def finKnownOk (actual expected : Nat) : Bool := actual == expected
+/-- `(Some(final_offset), None)`: `ensure!(self.max_recv_offset <= final_offset, ..)` -/
+@[reducible] def finNewOk (maxRecv finalOffset : Nat) : Bool := decide (maxRecv ≤ finalOffset)
+/-- `(None, Some(expected))`: `ensure!(expected >= buffered_offset, ..)` -/
+@[reducible] def dataKnownOk (expected bufferedOffset : Nat) : Bool := decide (expected ≥ bufferedOffset)
+/-- `skip`: `ensure!(final_size >= new_start_offset.as_u64(), Err(Error::InvalidFin))` -/
+@[reducible] def skipFinalOk (finalSize newStart : Nat) : Bool := decide (finalSize ≥ newStart)
+
 /-- `Cursors::handle_reader_fin` for a reader at `cur` with `buffered` bytes and the given
     final offset; returns the new `(final_offset, max_recv_offset)`. -/
 def handleFin (finalSize : Option Nat) (maxRecv : Nat) (cur buffered : Nat) (readerFinal : Option Nat) :
@@ -119,11 +131,11 @@ def handleFin (finalSize : Option Nat) (maxRecv : Nat) (cur buffered : Nat) (rea
   else
     match readerFinal, finalSize with
     | some actual, some expected =>
-      if actual = expected then .ok (finalSize, max maxRecv bufferedOffset) else .error .invalidFin
+      if finKnownOk actual expected then .ok (finalSize, max maxRecv bufferedOffset) else .error .invalidFin
     | some fo, none =>
-      if maxRecv ≤ fo then .ok (some fo, max maxRecv bufferedOffset) else .error .invalidFin
+      if finNewOk maxRecv fo then .ok (some fo, max maxRecv bufferedOffset) else .error .invalidFin
     | none, some expected =>
-      if expected ≥ bufferedOffset then .ok (finalSize, max maxRecv bufferedOffset) else .error .invalidFin
+      if dataKnownOk expected bufferedOffset then .ok (finalSize, max maxRecv bufferedOffset) else .error .invalidFin
     | none, none => .ok (finalSize, max maxRecv bufferedOffset)
 
 /-- `write_at` (`fin = false`) / `write_at_fin` (`fin = true`) -/
@@ -141,6 +153,10 @@ def write (s : RefBuf) (off : Nat) (data : List Nat) (fin : Bool) : Except Err R
       -- write_reader_impl: an empty reader stores nothing; otherwise every byte that no slot
       -- holds yet is stored
       .ok { s with finalSize := fs, maxRecv := mr, segs := ins s.segs (cur - s.consumed) rest }
+
+/-- the byte held for absolute stream offset `i` (what `iter()` plus the gap slots hold) -/
+def byteAt (s : RefBuf) (i : Nat) : Option Nat :=
+  if i < s.consumed then none else get s.segs (i - s.consumed)
 
 /-- `len()`: contiguous readable bytes -/
 def len (s : RefBuf) : Nat := contig s.segs
@@ -189,7 +205,7 @@ def skip (s : RefBuf) (n : Nat) : Except Err RefBuf :=
     else
       match s.finalSize with
       | some f =>
-        if f ≥ newStart then
+        if skipFinalOk f newStart then
           .ok { s with consumed := newStart, maxRecv := max s.maxRecv newStart, segs := advance s.segs n }
         else .error .invalidFin
       | none =>
@@ -230,5 +246,23 @@ def step (s : RefBuf) : Op → RefBuf × Out
 def run (s : RefBuf) : List Op → RefBuf
   | [] => s
   | op :: ops => run (step s op).1 ops
+
+/-! ### allocation geometry of the slot layer (pinned; only `SlotBuf` needs it, the bridge keeps
+    it tied to the source) -/
+
+/-- `MIN_BUFFER_ALLOCATION_SIZE` -/
+def minAlloc : Nat := 4096
+
+/-- rows of `Reassembler::allocation_size` in loop order: `(min_offset, allocation_size)` -/
+def allocTable : List (Nat × Nat) := [(1048576, 65536), (262144, 32768), (65536, 16384)]
+
+/-- `Reassembler::allocation_size`: first row with `offset >= min_offset`, else the minimum -/
+def allocationSize (offset : Nat) : Nat :=
+  match allocTable.find? (fun r => decide (offset ≥ r.1)) with
+  | some r => r.2
+  | none => minAlloc
+
+/-- `Reassembler::align_offset` -/
+def alignOffset (offset alignment : Nat) : Nat := offset / alignment * alignment
 
 end Quic.Data.RefBuf
